@@ -2319,6 +2319,20 @@ def tie_identifiers(chk, uwg):
                mismatches=bad, branches=br)
 
 
+def tie_sixth_round(chk, uwg):
+    """Sixth round (families in harness/w2_util.py): (a) layouts of COMMENT lines the rewrites above never emitted - blanks
+    other than U+0020 before the `#`, a byte-order mark, text before the `#` in the first cell; (b) the round trip
+    to_dict -> from_dict judged by SIMULATING both models, for custom archetypes of every provenance (constructed, rebuilt
+    from dictionaries, deep copies of un-pickled library cells, pickled), with overrides, inside the vegetation season."""
+    import w2_util as W
+    n, bad, br = W.comment_layouts(chk, uwg, lambda m: {a: repr(getattr(m, a)) for a in uwg.UWG.PARAMETER_LIST})
+    chk.direct('comment-line-layouts(tab / no-break space / form feed / byte-order mark before the #)', n, n, W.COMMENT_RULE,
+               mismatches=bad, branches=br)
+    n, bad, br = W.provenance_round_trips(chk, uwg)
+    chk.direct('round-trip-simulates-identically(custom archetypes of every provenance, overrides, vegetation season)', n, n,
+               W.ROUND_TRIP_RULE, mismatches=bad, branches=br)
+
+
 def run(chk):
     sys.path.insert(0, os.path.join(core.VERIF, 'harness'))
     from extract import paramtable
@@ -2341,6 +2355,7 @@ def run(chk):
         tie_zone_names(chk, uwg, xtab)
         tie_stocks(chk, uwg, xtab)
         tie_identifiers(chk, uwg)
+        tie_sixth_round(chk, uwg)
     else:
         chk.notes.append('generators for the dictionary/route ties need a fully recognised table; skipped')
     tie_circumstances(chk, uwg, kinds, xtab)
